@@ -19,9 +19,12 @@ FAMILIES = {
           ("s1", "a", 2.0, "b", 1.0, "u3"), ("s1", "a", 2.0, "c", 1.0, "u3"), ("s1", "b", 2.0, "c", 1.0, "u3"),
           ("s2", "a", 1.0, "b", 1.0, "u4")],
     # fully combinatorial single-sample block for the pairwise generator
-    "D": [("s1", "a", 1.0, "b", 1.0, "u1"), ("s1", "a", 1.0, "c", 1.0, "u1"), ("s1", "b", 1.0, "c", 1.0, "u1"),
-          ("s1", "a", 1.0, "", 0.0, "u1"), ("s2", "a", 1.0, "b", 1.0, "u1"), ("s1", "c", 1.0, "d", 1.0, "u1"),
+    "D": [("s1", "a", 1.0, "b", 1.0, "u1"), ("s1", "a", 1.0, "c", 1.0, "u1"), ("s1", "", 0.0, "", 0.0, "u1"),
+          ("s1", "a", 1.0, "", 0.0, "u1"), ("s2", "a", 1.0, "b", 1.0, "u1"), ("s1", "b", 1.0, "c", 1.0, "u1"),
           ("s2", "c", 1.0, "", 0.0, "u1")],
+    # like A but with a vehicle-only (all-control) experiment and a zero-dose treatment among the unobserved rows
+    "E": [("s1", "a", 1.0, "b", 1.0, "obs"), ("s1", "", 0.0, "", 0.0, "u1"), ("s1", "b", 1.0, "c", 1.0, "u1"),
+          ("s2", "a", 1.0, "b", 1.0, "u2"), ("s2", "c", 0.0, "a", 1.0, "u2"), ("s1", "a", 1.0, "c", 1.0, "u3")],
 }
 
 
